@@ -15,7 +15,7 @@ META = {
     "bounds": {"quick": "12 ordered pairs from 4 seed-rotated command codes with a TPM2B first parameter; one pre-emption point; history length 3-4",
                "thorough": "all ordered pairs from 9 codes; commands and responses; third decode C between"},
     "outside": "histories longer than 4 decodes, more than one pre-emption point, threads",
-    "wall_budget_s": {"quick": 200, "thorough": 1500},
+    "wall_budget_s": {"quick": 200, "thorough": 840},
 }
 
 
